@@ -159,6 +159,9 @@ func (c *context) URLPath(name string, pairs ...string) string {
 func (c *context) Next() {
 	c.index++
 	c.run()
+	// Point back at the last started handler, the caller's own "c.index++" (or
+	// another call of Next) then advances to the first handler not yet started.
+	c.index--
 }
 
 func (c *context) setAction(h Handler) {
